@@ -31,14 +31,18 @@ enum Want {
 }
 
 fn model_two(s: u64) -> Want {
-    // loop popcount and descending bit scan
-    let mut bits: Vec<u32> = Vec::new();
+    // loop popcount and descending bit scan (no allocation: this runs tens of millions of times on every thread)
+    let mut bits = [0u32; 3];
+    let mut n = 0usize;
     for b in (0..64u32).rev() {
         if s >> b & 1 == 1 {
-            bits.push(b);
+            if n < 3 {
+                bits[n] = b;
+            }
+            n += 1;
         }
     }
-    match bits.len() {
+    match n {
         0 | 1 => Want::NotEnough,
         2 => {
             if bits[0] < 52 && bits[1] < 52 {
